@@ -8,8 +8,6 @@ import (
 	"bufio"
 	"encoding/json"
 	"fmt"
-	"go/token"
-	"go/types"
 	"log"
 	"os"
 	"sort"
@@ -17,19 +15,13 @@ import (
 	"time"
 
 	"github.com/go-critic/go-critic/linter"
-	"golang.org/x/tools/go/packages"
 	"verif.local/gcsim/simapi"
 	"verif.local/gcsim/simrt"
 )
 
-// CLIHooks is how the shim exposes the command-line front-end.
+// CLIHooks is how the shim exposes the command-line front-end: its real entry point.
 type CLIHooks struct {
-	// New performs the steps of the check sub-command up to and including
-	// checker initialisation, with package loading replaced by the given file set.
-	New          func(args []string, fset *token.FileSet, sizes types.Sizes) (any, error)
-	CheckPackage func(h any, pkg *packages.Package)
-	FoundIssues  func(h any) bool
-	CheckerNames func(h any) []string
+	Run func(args []string) error
 }
 
 // Worker is the per-process state.
@@ -54,6 +46,9 @@ type Worker struct {
 	curRun    *simapi.RunConfig
 	raceLog   string
 	raceOff   int64
+	// yield sites of the front-end's functions the driver hooks (-1: not found in this tree)
+	siteRunCheckers  int32
+	siteCheckPackage int32
 }
 
 func (w *Worker) emit(r *simapi.RunResult) {
@@ -110,6 +105,7 @@ func Main(h CLIHooks) {
 		w.defaults[info.Name] = m
 	}
 
+	w.findSites()
 	simrt.OnAbort = w.onAbort
 	startWatchdog()
 
@@ -175,8 +171,8 @@ func startWatchdog() {
 				last, lastT = s, time.Now()
 				continue
 			}
-			if time.Since(lastT) > 120*time.Second {
-				fmt.Fprintln(os.Stderr, "gcsim-worker: watchdog: logical clock stopped for 120s; harness trouble")
+			if time.Since(lastT) > 600*time.Second {
+				fmt.Fprintln(os.Stderr, "gcsim-worker: watchdog: logical clock stopped for 600s; harness trouble")
 				os.Exit(75)
 			}
 		}
